@@ -38,6 +38,8 @@ Variable children : list (option child_ops).
 
 Definition child (s:nat) : option child_ops := nth s children None.
 Definition is11 : bool := match c_be cf with Back11 => true | _ => false end.
+Definition start_queues : bool := if is11 then back11_start_queues else back_start_queues.
+Definition entry_throw_resets : bool := if is11 then back11_entry_throw_resets else back_entry_throw_resets.
 Definition chain_continue (res:nat) : bool := tab1 (if is11 then back11_chain_continue else back_chain_continue) res.
 Definition chain_merge (res sub:nat) : nat := tab2 (if is11 then back11_chain_merge else back_chain_merge) res sub.
 Definition internal_tried (res:nat) : bool := tab1 (if is11 then back11_internal_tried else back_internal_tried) res.
@@ -94,9 +96,12 @@ Definition exec_exit (fuel s:nat) (ev:evt) : M unit :=
 Definition exec_entry (fuel s:nat) (ev:evt) (k:ekind) : M unit :=
   match child s with
   | Some co =>
-      in_child s tt (co_entry_pre co ev k) ;;
-      cb_at [s] KMEntry 0 ev (match k with EkPlain => false | _ => true end) ;;
-      in_child s tt (co_entry_post co fuel ev k)
+      let body :=
+        in_child s tt (co_entry_pre co ev k) ;;
+        cb_at [s] KMEntry 0 ev (match k with EkPlain => false | _ => true end) ;;
+        in_child s tt (co_entry_post co fuel ev k) in
+      (* does a throwing entry behaviour leave the submachine's processing marker set?  (probed: Generated.v) *)
+      if entry_throw_resets then on_throw body (lift_child s tt (modify (fun rn => set_processing rn false))) else body
   | None =>
       match s_kind (get_state mc s) with
       | KExitPt ety =>
@@ -271,6 +276,15 @@ Fixpoint drain_msgq (fuel:nat) : M unit :=
       end
   end.
 
+(* execute_single_queued_event: exactly the oldest stored call, nothing else *)
+Definition drain_one : M unit :=
+  rn <- get ;;
+  match msgq rn with
+  | [] => ret tt
+  | QEv e src _ _ :: rest => put (set_msgq rn rest) ;; pei_rec e src ;; ret tt
+  | QCompl _ _ _ :: rest => put (set_msgq rn rest)
+  end.
+
 Definition qseq (q:qitem) : Z := match q with QEv _ _ z _ => z | QCompl _ _ _ => 0%Z end.
 Definition set_qseq (z:Z) (q:qitem) : qitem := match q with QEv e s _ m => QEv e s z m | other => other end.
 (* std::stable_sort with sort_greater: descending by the distance of the sequence number to the current sequence
@@ -398,9 +412,16 @@ Definition do_stop (fuel:nat) : M unit :=
 Definition do_start (fuel:nat) : M unit :=
   let ev := Evt EV_INIT 0 in
   modify (fun rn => set_act rn (m_inits mc)) ;;
-  cb KMEntry 0 ev false ;;
-  start_regions fuel ev (m_nreg mc) 0 ;;
-  (if has_completion_rows mc then pei_rec completion_event SRC_DIRECT ;; ret tt else ret tt).
+  let entries := cb KMEntry 0 ev false ;; start_regions fuel ev (m_nreg mc) 0 in
+  let completion := if has_completion_rows mc then pei_rec completion_event SRC_DIRECT ;; ret tt else ret tt in
+  (* does start() store the events its entry behaviours raise?  (probed: Generated.v) *)
+  if start_queues then
+    modify (fun rn => set_processing rn true) ;;
+    on_throw entries (modify (fun rn => set_processing rn false)) ;;
+    modify (fun rn => set_processing rn false) ;;
+    completion ;;
+    drain_msgq fuel
+  else entries ;; completion.
 
 End Rtc.
 
@@ -424,7 +445,7 @@ Definition back_ops : child_ops :=
            (fun fuel => do_start (pei fuel) fuel)
            do_stop
            cb_enqueue
-           (fun fuel maxev => if Nat.eqb maxev 0 then drain_msgq (pei fuel) fuel else drain_msgq (pei fuel) 1)
+           (fun fuel maxev => if Nat.eqb maxev 0 then drain_msgq (pei fuel) fuel else drain_one (pei fuel))
            level_trigs
            (fun _ => false) (fun _ => false) (fun _ _ => false) (fun _ _ => false)
            back_flag_or back_flag_and.
